@@ -18,10 +18,10 @@ def run(ctx):
         bfs = [("nb2", half, 2), ("all1", allr, 1)]
         walks = [dict(label="walk", tags="", walks=12, plies=40, shards=12, illegal_pct=30)]
     else:
-        bfs = [("nb3", nb, 3), ("r0-2", r0, 2), ("all2", allr, 2)]
+        bfs = [("nb3", nb, 3), ("all2", allr, 2)]
         walks = [dict(label="walk", tags="", walks=40, plies=80, shards=28, illegal_pct=30)]
     fam = [("castle-slice", "Families_pos.cfg", {"VERIF_FAMILY": "castle", "VERIF_VARIANT": "nbrqp"[ctx.seed % 5], "VERIF_FILE": 0,
                                                   "VERIF_SLICE": ctx.seed % 8, "VERIF_SLICES": 8, "VERIF_HM": 0, "VERIF_EXTRA": "", "VERIF_EDGE": 0, "VERIF_NEAR": 0})] if ctx.tier == "quick" else \
-          [("castle-%s" % v, "Families_pos.cfg", {"VERIF_FAMILY": "castle", "VERIF_VARIANT": v, "VERIF_FILE": 0, "VERIF_SLICE": 0, "VERIF_SLICES": 1})
+          [("castle-%s" % v, "Families_pos.cfg", {"VERIF_FAMILY": "castle", "VERIF_VARIANT": v, "VERIF_FILE": 0, "VERIF_SLICE": ctx.seed % 2, "VERIF_SLICES": 2})
            for v in "nbrqp"]
     board_pipeline(ctx, bfs, walks, fam)
